@@ -76,10 +76,72 @@ where
         let b = json_data.b;
         let cones = json_data.cones;
         let settings = settings.unwrap_or(json_data.settings);
+
+        // a file that parses can still describe an ill-formed problem.
+        // Report that as an error here, since the constructor panics.
+        check_json_problem(&P, &q, &A, &b, &cones, &settings)?;
+
         let solver = Self::new(&P, &q, &A, &b, &cones, settings);
 
         Ok(solver)
     }
+}
+
+fn check_json_problem<T: FloatT>(
+    P: &CscMatrix<T>,
+    q: &[T],
+    A: &CscMatrix<T>,
+    b: &[T],
+    cones: &[SupportedConeT<T>],
+    settings: &DefaultSettings<T>,
+) -> Result<(), io::Error> {
+    fn invalid<E: ToString>(e: E) -> io::Error {
+        io::Error::new(io::ErrorKind::InvalidData, e.to_string())
+    }
+
+    P.check_format().map_err(invalid)?;
+    A.check_format().map_err(invalid)?;
+
+    let (m, n) = (b.len(), q.len());
+    if !P.is_square() || P.ncols() != n || A.ncols() != n || A.nrows() != m {
+        return Err(invalid("problem data have incompatible dimensions"));
+    }
+
+    let mut p: usize = 0;
+    for cone in cones {
+        match cone {
+            SupportedConeT::PowerConeT(α) => {
+                if !(*α > T::zero() && *α < T::one()) {
+                    return Err(invalid("power cone exponent must lie in (0,1)"));
+                }
+            }
+            SupportedConeT::GenPowerConeT(α, _) => {
+                // same test as the cone's constructor
+                let tol = T::epsilon() * α.len().as_T() * (0.5).as_T();
+                if !α.iter().all(|r| *r > T::zero()) || !((T::one() - α.sum()).abs() < tol) {
+                    return Err(invalid(
+                        "generalized power cone exponents must be positive and sum to 1",
+                    ));
+                }
+            }
+            _ => {}
+        }
+        p = p
+            .checked_add(cone.nvars())
+            .ok_or_else(|| invalid("cone dimensions overflow"))?;
+    }
+    if p != m {
+        return Err(invalid(
+            "constraint dimensions inconsistent with size of cones",
+        ));
+    }
+
+    settings.validate().map_err(invalid)?;
+    if !settings.direct_kkt_solver {
+        return Err(invalid("indirect KKT solvers are not supported"));
+    }
+
+    Ok(())
 }
 
 fn sanitize_settings<T: FloatT>(settings: &mut DefaultSettings<T>) {
